@@ -9,6 +9,7 @@ require (
 	github.com/pinealctx/neptune v0.0.0
 	github.com/redis/go-redis/v9 v9.0.4
 	go.uber.org/zap v1.24.0
+	google.golang.org/grpc v1.55.0
 	gorm.io/driver/mysql v1.5.1
 	gorm.io/gorm v1.25.1
 )
@@ -29,7 +30,6 @@ require (
 	golang.org/x/crypto v0.9.0 // indirect
 	golang.org/x/exp v0.0.0-20230522175609-2e198f4a06a1 // indirect
 	google.golang.org/genproto v0.0.0-20230410155749-daa745c078e1 // indirect
-	google.golang.org/grpc v1.55.0 // indirect
 	google.golang.org/protobuf v1.30.0 // indirect
 	gopkg.in/natefinch/lumberjack.v2 v2.2.1 // indirect
 )
